@@ -149,6 +149,10 @@ fn load_inner(sess: &Session, with_debugger: bool) -> Result<Loaded, Value> {
                         let size = item_size(it);
                         if let Some((_, t)) = texts.iter().find(|(idx, _)| *idx == i) {
                             for j in 0..size {
+                                // (a block of thousands of words is only recorded at its two ends: scripts do not look inside)
+                                if size > 2000 && j >= 2 && j + 2 < size {
+                                    continue;
+                                }
                                 tv.push(json!([off + j, t]));
                             }
                         }
